@@ -358,7 +358,8 @@ def chaiLine (line : String) : String :=
               let nat := ",".intercalate (r.2.natLog.map (fun p => s!"{p.1}:" ++ "/".intercalate (p.2.map (showChaiVal r.2 3))))
               let sh := r.2.shape
               let tg := if r.2.tags.isEmpty then "" else " tags=" ++ ",".intercalate (r.2.tags.eraseDups.map toString)
-              s!"res={showChaiOut r.2 r.1} out={outs} nat={nat} shape={sh.1}/{sh.2.1}/{sh.2.2} names={names}{tg}"
+              let lt := if r.2.objs.take b.heap.length == b.heap then "" else " lits=CHANGED"
+              s!"res={showChaiOut r.2 r.1} out={outs} nat={nat} shape={sh.1}/{sh.2.1}/{sh.2.2} names={names}{tg}{lt}"
            | none => "bad-build")
        | _ => "bad-sexp")
   | _ => "bad-op"
